@@ -8,9 +8,6 @@ Local Open Scope F_scope.
 Lemma gen_complete_ok : gen_complete = true.
 Proof. reflexivity. Qed.
 
-Ltac split_hyps :=
-  repeat match goal with H : _ /\ _ |- _ => destruct H end; repeat split; assumption.
-
 (** * 1. Order conditions, decided on the generated rationals (carrier Q) *)
 Definition TQ := @T Q.
 Definition euler_tab : TQ := @euler_tableau Q QOps.
@@ -45,62 +42,58 @@ Proof.
   - apply Qle_bool_iff. now rewrite fabsb_Q.
 Qed.
 
+(** Named checkers: functions of the tableau, so that a derived Butcher form is
+    evaluated once per check (call by value).  [eps = 0] means exact. *)
+Definition additive_order1_ok (eps : Q) (t : TQ) := all_within eps (order1 t).
+Definition additive_order2_ok (eps : Q) (t : TQ) := all_within eps (order1 t ++ order2 t ++ c_consistency t).
+Definition additive_order3_ok (eps : Q) (t : TQ) := all_within eps (order3 t).
+Definition explicit_order3_ok (eps : Q) (t : TQ) := all_within eps [ex_order3_bushy t; ex_order3_tall t].
+Definition explicit_order3_tall_ok (eps : Q) (t : TQ) := all_within eps [ex_order3_tall t].
+Definition explicit_order3_bushy_ok (eps : Q) (t : TQ) := all_within eps [ex_order3_bushy t].
+Definition explicit_order4_ok (eps : Q) (t : TQ) := all_within eps (ex_order4 t).
+Definition explicit_order4_tall_ok (eps : Q) (t : TQ) := all_within eps [ex_order4_tall t].
+Definition explicit_order5_bushy_ok (eps : Q) (t : TQ) := all_within eps [ex_order5_bushy t].
+Definition coupling_bIcEcE_ok (eps : Q) (t : TQ) := all_within eps [oc_bcc t false true true].
+
 (** Euler pair: order 1 (both parts, 2 conditions), not order 2. *)
 Lemma order_euler :
-  all_zero (order1 euler_tab) = true /\ all_zero (order2 euler_tab) = false.
+  additive_order1_ok 0 euler_tab = true /\ additive_order2_ok 0 euler_tab = false.
 Proof. split; vm_compute; reflexivity. Qed.
 
 (** Crank-Nicolson + Heun: all 2 + 4 additive conditions of order <= 2; equal
     stage times; order 3 fails (already for the explicit part alone). *)
 Lemma order_cn_rk2 :
-  all_zero (order1 rk2_tab ++ order2 rk2_tab ++ c_consistency rk2_tab) = true /\
-  all_zero (order3 rk2_tab) = false /\ zeroq (ex_order3_tall rk2_tab) = false.
+  additive_order2_ok 0 rk2_tab = true /\
+  additive_order3_ok 0 rk2_tab = false /\ explicit_order3_tall_ok 0 rk2_tab = false.
 Proof. repeat split; vm_compute; reflexivity. Qed.
 
 (** Williamson RK3 + CN (generated alphas/betas/gammas -> Butcher form): order 2
     as an additive scheme (exact), order 3 for the explicit part (exact), the
     order-3 coupling conditions fail and the explicit order-4 conditions fail. *)
 Lemma order_cn_rk3 :
-  all_zero (order1 rk3_tab ++ order2 rk3_tab ++ c_consistency rk3_tab) = true /\
-  all_zero [ex_order3_bushy rk3_tab; ex_order3_tall rk3_tab] = true /\
-  all_zero (order3 rk3_tab) = false /\
-  all_zero (ex_order4 rk3_tab) = false.
-Proof.
-  (* the tableau is bound once (call by value), not re-derived at every access *)
-  assert (H : (fun t => all_zero (order1 t ++ order2 t ++ c_consistency t) &&
-                        all_zero [ex_order3_bushy t; ex_order3_tall t] &&
-                        negb (all_zero (order3 t)) && negb (all_zero (ex_order4 t))) rk3_tab = true)
-    by (vm_compute; reflexivity).
-  cbv beta in H. rewrite !andb_true_iff, !negb_true_iff in H. split_hyps.
-Qed.
+  additive_order2_ok 0 rk3_tab = true /\ explicit_order3_ok 0 rk3_tab = true /\
+  additive_order3_ok 0 rk3_tab = false /\ explicit_order4_ok 0 rk3_tab = false.
+Proof. repeat split; vm_compute; reflexivity. Qed.
 
 (** Carpenter-Kennedy RK4 + CN, 13-digit decimals: every condition of additive
     order 2 and of explicit order 3 and 4 (and the stage-time consistency) holds
     to 1e-13 (one unit of the last tabulated digit); the order-3 coupling
-    condition b_im.(c_ex c_ex) = 1/3 is violated by more than 1e-3 and explicit order 5 by more than 1e-5. *)
+    condition b_im.(c_ex c_ex) = 1/3 is violated by more than 1e-3 and explicit
+    order 5 by more than 1e-5. *)
 Lemma order_cn_rk4 :
-  all_within eps13 (order1 rk4_tab ++ order2 rk4_tab ++ c_consistency rk4_tab) = true /\
-  all_within eps13 ([ex_order3_bushy rk4_tab; ex_order3_tall rk4_tab] ++ ex_order4 rk4_tab) = true /\
-  Qle_bool (Qabs (oc_bcc rk4_tab false true true)) (1 # 1000) = false /\
-  Qle_bool (Qabs (ex_order5_bushy rk4_tab)) (1 # 100000) = false.
-Proof.
-  assert (H : (fun t => all_within eps13 (order1 t ++ order2 t ++ c_consistency t) &&
-                        all_within eps13 ([ex_order3_bushy t; ex_order3_tall t] ++ ex_order4 t) &&
-                        negb (Qle_bool (Qabs (oc_bcc t false true true)) (1 # 1000)) &&
-                        negb (Qle_bool (Qabs (ex_order5_bushy t)) (1 # 100000))) rk4_tab = true)
-    by (vm_compute; reflexivity).
-  cbv beta in H. rewrite !andb_true_iff, !negb_true_iff in H. split_hyps.
-Qed.
+  additive_order2_ok eps13 rk4_tab = true /\
+  explicit_order3_ok eps13 rk4_tab = true /\ explicit_order4_ok eps13 rk4_tab = true /\
+  coupling_bIcEcE_ok (1 # 1000) rk4_tab = false /\
+  explicit_order5_bushy_ok (1 # 100000) rk4_tab = false.
+Proof. repeat split; vm_compute; reflexivity. Qed.
 
 (** SIL3: additive order 2 (exact); explicit part: the order-3 tall tree holds
     (order 3 for linear F) while the bushy tree fails (order 2 for nonlinear F);
     the order-4 tall tree fails (linear order is exactly 3); coupling order 3 fails. *)
 Lemma order_sil3 :
-  all_zero (order1 sil3_tab ++ order2 sil3_tab ++ c_consistency sil3_tab) = true /\
-  zeroq (ex_order3_tall sil3_tab) = true /\
-  zeroq (ex_order3_bushy sil3_tab) = false /\
-  zeroq (ex_order4_tall sil3_tab) = false /\
-  all_zero (order3 sil3_tab) = false.
+  additive_order2_ok 0 sil3_tab = true /\
+  explicit_order3_tall_ok 0 sil3_tab = true /\ explicit_order3_bushy_ok 0 sil3_tab = false /\
+  explicit_order4_tall_ok 0 sil3_tab = false /\ additive_order3_ok 0 sil3_tab = false.
 Proof. repeat split; vm_compute; reflexivity. Qed.
 
 (** The generated RK4 coefficients are the Carpenter-Kennedy (1994) RK4(3)5[2N]
@@ -174,20 +167,7 @@ Lemma linear_taylor_series :
   (is_some_ser ser_sil3 = true /\
    taylor_upto 0 2 (some_ser ser_sil3) E = true /\ taylor_x_upto 0 3 (some_ser ser_sil3) E = true /\
    taylor_upto 0 3 (some_ser ser_sil3) E = false /\ taylor_x_upto 0 4 (some_ser ser_sil3) E = false).
-Proof.
-  cbv zeta.
-  assert (H : (fun E e k2 k3 k4 s3 =>
-     taylor_upto 0 1 e E && negb (taylor_upto 0 2 e E) &&
-     taylor_upto 0 2 k2 E && negb (taylor_x_upto 0 3 k2 E) &&
-     taylor_upto 0 2 k3 E && taylor_x_upto 0 3 k3 E && negb (taylor_upto 0 3 k3 E) && negb (taylor_x_upto 0 4 k3 E) &&
-     taylor_upto eps13 2 k4 E && taylor_x_upto eps13 4 k4 E &&
-     negb (taylor_upto (1 # 100000) 3 k4 E) && negb (taylor_x_upto (1 # 100000) 5 k4 E) &&
-     is_some_ser s3 &&
-     taylor_upto 0 2 (some_ser s3) E && taylor_x_upto 0 3 (some_ser s3) E &&
-     negb (taylor_upto 0 3 (some_ser s3) E) && negb (taylor_x_upto 0 4 (some_ser s3) E))
-     (ser_exp 1) ser_euler ser_rk2 ser_rk3 ser_rk4 ser_sil3 = true) by (vm_compute; reflexivity).
-  cbv beta in H. rewrite !andb_true_iff, !negb_true_iff in H. split_hyps.
-Qed.
+Proof. cbv zeta. repeat split; vm_compute; reflexivity. Qed.
 
 (** Leapfrog: started from exact snapshots exp(-(x+y)) and 1, the future snapshot
     agrees with exp(x+y) to total degree 2 exactly when alpha = 1/2 is used
